@@ -81,10 +81,34 @@ def run(prog, ctx):
         rows += 1
         width, signed, kind = conv.GETTERS[gname]
         fcalls = [c for c in s.calls(("asprintf", "snprintf", "sprintf"))]
-        if len(fcalls) != 1:
-            ctx.inconclusive("V1", "%s formatter" % sname, s.where, "expected one asprintf/snprintf call, found %d" % len(fcalls))
+        if not fcalls:
+            ctx.inconclusive("V1", "%s formatter" % sname, s.where, "no asprintf/snprintf call found")
             continue
+        # several formatter calls (alternative notations): each one must write text the getter of the SAME type reads back
+        for extra in fcalls[1:] if len(fcalls) > 1 else []:
+            efmt = None
+            for a in extra.call_args():
+                if a.string_value() is not None and "%" in a.string_value():
+                    efmt = a.string_value()
+            ed = fmt_directives(efmt) if efmt else []
+            if kind == "int" and ed:
+                cch = ed[0][4]
+                if signed and cch in "xXou":
+                    ctx.fail("V1", "%s: every notation keeps the sign" % sname, extra.call_args()[0].where if False else extra.where,
+                             "format %r writes a signed value with the unsigned conversion %%%s: a negative number is stored as its bit pattern "
+                             "(-2 -> 0xfffffffe), which the signed getter refuses or reads as another number" % (efmt, cch), key="directive-sign:%s" % sname)
+                elif (not signed) and cch in "di":
+                    ctx.fail("V1", "%s: every notation keeps the sign" % sname, extra.where,
+                             "format %r writes an unsigned value with %%%s: values above the signed range come out negative" % (efmt, cch), key="directive-sign:%s" % sname)
+                else:
+                    ctx.ok("V1", "%s: alternative notation %r" % (sname, efmt), extra.where, "conversion %%%s has the type's signedness" % cch)
         call = fcalls[0]
+        if len(fcalls) > 1:
+            # judge the plain (decimal / %g) form below: the call whose format has no '#'
+            plain = [c2 for c2 in fcalls if not any(a.string_value() is not None and "#" in a.string_value() for a in c2.call_args())]
+            call = plain[0] if plain else fcalls[0]
+            for extra in [c2 for c2 in fcalls if c2 is not call and c2 not in fcalls[1:]]:
+                pass
         fname = call.j["callee"]
         fidx = {"asprintf": 1, "snprintf": 2, "sprintf": 1}[fname]
         args = call.call_args()[fidx - 1:]      # args[1] = format, args[2:] = values (same layout as asprintf)
@@ -263,4 +287,37 @@ def run(prog, ctx):
                      "the getter does not map %r to %s (recognised there: %s)" % (lit, truth, sorted(got)), key="bool-roundtrip:%s" % lit)
     from rules.C09 import r5_lowering_helper
     r5_lowering_helper(prog, ctx, "V5")
+    # V6: set and get address the same entry - the first one with that section and key (= C11.A4)
+    from sa.report import Ctx as _Ctx
+    from rules import C11 as _C11
+    sub = _Ctx(ctx.prop, ctx.tier, prog)
+    try:
+        _C11.a4(prog, sub)
+        for ob in sub.obs:
+            ob.rule = "V6"
+            ctx.obs.append(ob)
+    except Inconclusive as e:
+        ctx.inconclusive("V6", "set and get find the same entry", "", str(e))
+    # V7: a set that reports success has stored the value: no successful return of a public setter bypasses setKeyValue()
+    n7 = 0
+    for name in prog.entry_points():
+        if not (name.startswith("econf_set") and name.endswith("Value")):
+            continue
+        f = prog.fn(name)
+        sk = f.calls("setKeyValue")
+        if not sk:
+            continue
+        n7 += 1
+        cfg = f.cfg
+        blocks = set(cfg.block_of(c) for c in sk)
+        succ = {(b, i): s2 for (b, i, s2) in cfg.edges()}
+        wp = cfg.success_path_avoiding(lambda lit, b, i: succ.get((b, i)) in blocks or b in blocks)
+        if wp is None:
+            ctx.ok("V7", "%s: success means stored" % name, sk[0].where, "every consistent path to a successful return passes setKeyValue()")
+        else:
+            last = wp[-1][0] if wp else cfg.entry
+            ctx.fail("V7", "%s: success means stored" % name, (cfg.blocks[last].elems[-1] if cfg.blocks[last].elems else f).where,
+                     "%s can report success without storing anything (a shortcut in front of setKeyValue(), e.g. \"value unchanged\" decided by ==, "
+                     "which takes -0.0 for 0.0): the following get returns the old value" % name, key="set-skipped:%s" % name, path=cfg.describe_path(wp)[-5:])
+    ctx.counts["V7 public setters"] = n7
     ctx.floor("C08 typed setter/getter pairs", rows, 6)
